@@ -23,7 +23,9 @@ META = {
             "declaration of 2-4 boundaries from {-2,-1.5,-1,0,0.5,1,2} and every sequence of 3 (thorough 4) observations drawn from the "
             "values half a unit below / at / above each boundary, far below, -Inf, +Inf and NaN; every behaviour is replayed through "
             "the real compiler and VM (`histogram h by k buckets ...; h[$1] = float($2)`), comparing bucket bounds, per-bucket "
-            "counts, Count and Sum after every line, then GetBucketsCumByMax, JSON and a sample of Prometheus expositions.",
+            "counts, Count and Sum after every line, then GetBucketsCumByMax, JSON and a sample of Prometheus expositions; boundaries in "
+            "half units (negative non-whole bounds), whole-valued observations also through an int-typed program, and a reload with an "
+            "edited boundary list between observations (everything counted so far survives it).",
     "note": "Finite values are multiples of 1/2 (exact in float64); rounding of sums of arbitrary floats is out of the model.",
     "technique": "TLA+ spec + TLC exhaustive behaviours replayed through real compiler/VM/datum/exporter (direction A)",
     "design_ref": "DESIGN.md 5/C21",
